@@ -282,7 +282,13 @@ def r5_write_data_frame(ctx):
 
 
 def run(ctx):
-    from . import C01, C09
+    from . import C01, C09, C11
+    # frame integrity: a frame whose announced length is not its real length, or that is abandoned half written, makes the bytes
+    # that follow (usually another stream's) parse under the wrong id
+    C01.r1_encode_cast(ctx)
+    C01.r2_chunking(ctx)
+    C01.r9_complete_writes(ctx)
+    C11.r7_cancellation(ctx)
     C01.r8_single_forwarder(ctx)   # the forwarder passes each (id, chunk) pair on unchanged: a chunk cannot leave under another stream's id
     C09.r1_locks(ctx)              # one stream's event cannot wedge the dispatch of all the others (no self-deadlock on the stream tables)
     r1_table_keys(ctx)
